@@ -35,9 +35,10 @@ REQUIRED = {"capture.nothing_reaches_real_stream": {"quick": 1200, "thorough": 3
 REQUIRED_SEEN = {"switches": ["out1err1log1", "out1err1log0", "out1err0log1", "out1err0log0", "out0err1log1", "out0err1log0",
                               "out0err0log1", "out0err0log0"],
                  "log_habit": ["plain", "flush", "bulk"], "setup_logging_from_hook": ["DEBUG", "WARNING"],
-                 "capture_switched_at_runtime": ["per scenario"]}
+                 "capture_switched_at_runtime": ["per scenario"],
+                 "passthrough_logging_project": ["environment_without_before_all"], "logging_filter_shape": ["include_and_exclude", "include_only", "exclude_only"]}
 NSHARDS = {"quick": 16, "thorough": 16}
-MARK = re.compile(r"\[([BMAS])\|([^|\]]*)\|([^|\]]*)\|(out|err|log|dbg)\]")
+MARK = re.compile(r"\[([BMAS])\|([^|\]]*)\|([^|\]]*)\|(out|err|log|dbg|side)\]")
 
 
 def plan(tier, seed):
@@ -139,6 +140,7 @@ def run_case(lab, mon, case, rng, sample=False):
         sys.stderr.write(marker(kind, sid, scen, "err") + "\n")
         logging.getLogger("bvm.c18").warning("%s", marker(kind, sid, scen, "log"))
         logging.getLogger("bvm.c18").debug("%s", marker(kind, sid, scen, "dbg"))
+        logging.getLogger("bvm.side").warning("%s", marker(kind, sid, scen, "side"))      # a second logger (for --logging-filter)
         if log_habit == "flush":
             # the usual "make sure everything is written" idiom of user code: must not lose what was captured
             for h in logging.getLogger().handlers:
@@ -175,6 +177,24 @@ def run_case(lab, mon, case, rng, sample=False):
     if hook_level is not None:
         eff_level = hook_level
     cap_dbg = cap_log and eff_level <= logging.DEBUG
+    # --logging-filter (documented in features/logcapture.filter.feature): exact logger names; once a name is excluded with '-',
+    # every logger that is not excluded is captured; otherwise only the listed ones are
+    flt_inc, flt_exc = set(), set()
+    for a in args:
+        if a.startswith("--logging-filter="):
+            for nm in a.split("=", 1)[1].split(","):
+                nm = nm.strip()
+                if nm:
+                    (flt_exc if nm.startswith("-") else flt_inc).add(nm.lstrip("-"))
+
+    def filter_passes(name):
+        if flt_exc:
+            return name not in flt_exc
+        return (name in flt_inc) if flt_inc else True
+    if flt_inc and flt_exc:
+        mon.seen("logging_filter_shape", "include_and_exclude")
+    elif flt_inc or flt_exc:
+        mon.seen("logging_filter_shape", "include_only" if flt_inc else "exclude_only")
     uncaptured = set()
 
     def hook_plugin(state, context, name, elem, tag):
@@ -261,7 +281,7 @@ def run_case(lab, mon, case, rng, sample=False):
         mon.check("capture.nothing_reaches_user_log_handlers", not got_user,
                   lambda: W(user_handlers=n_user_handlers, leaked=got_user[:5]))
     if cap_log and cap_err:
-        marks = [m for m in MARK.findall(real_err) if m[3] == "log"]
+        marks = [m for m in MARK.findall(real_err) if m[3] in ("log", "side")]
         mon.check("capture.nothing_reaches_real_stream", not marks, lambda: W(channel="log->stderr", leaked=marks[:5]))
     # ---- (d) the failure report of a failing step -------------------------------------------------------
     if case.get("hook_fault") is None and not ki_hook:
@@ -278,11 +298,12 @@ def run_case(lab, mon, case, rng, sample=False):
                         if not cap_log:
                             # log capture off: records go wherever logging sends them (with no handler configured:
                             # logging.lastResort -> sys.stderr, i.e. into the stderr capture) -- not tracked
-                            got = [m for m in got if m[3] not in ("log", "dbg")]
+                            got = [m for m in got if m[3] not in ("log", "dbg", "side")]
                         # everything the scenario produced (it stops after this step)
                         exp = []
                         for (k, sid) in produced[s.name]:
-                            for chan, on in (("out", cap_out), ("err", cap_err), ("log", cap_log), ("dbg", cap_dbg)):
+                            for chan, on in (("out", cap_out), ("err", cap_err), ("log", cap_log and filter_passes("bvm.c18")),
+                                             ("dbg", cap_dbg and filter_passes("bvm.c18")), ("side", cap_log and filter_passes("bvm.side"))):
                                 if on:
                                     exp.append((k, sid, s.name, chan))
                         foreign = [m for m in got if m[2] != s.name]
@@ -312,7 +333,10 @@ def subprocess_case(mon, rng, case):
     args = case["args"]
     cap_out = "--no-capture" not in args
     cap_err = "--no-capture-stderr" not in args
-    proj = Project(case["program"], {"markers": True})
+    plan = {"markers": True}
+    if case.get("env_without"):
+        plan["env_without"] = case["env_without"]
+    proj = Project(case["program"], plan)
     try:
         res = proj.run(args + ["-f", "plain", "-o", "plain.txt", "--no-summary"])
     finally:
@@ -333,6 +357,16 @@ def subprocess_case(mon, rng, case):
         mon.check("subprocess.captured_stderr_not_on_real_stderr", not err_marks, lambda: W(leaked=err_marks[:5], stderr=res["stderr"][-400:]))
     else:
         mon.check("subprocess.passthrough_stderr", err_marks == steps, lambda: W(got=err_marks[:8], want=steps[:8]))
+    if "--no-logcapture" in args and "before_all" in (case.get("env_without") or ()):
+        # log capture off: the records of the steps pass straight through behave's default logging set-up (level INFO,
+        # formatted with level and logger name) to the real stderr -- whatever OTHER hooks the project's environment.py defines
+        # (a project with a before_all() hook of its own is responsible for its logging set-up itself: nothing is demanded)
+        warn = re.findall(r"WARNING\W+bvm\W+M(\w+):log", res["stderr"])
+        info = re.findall(r"INFO\W+bvm\W+M(\w+):info", res["stderr"])
+        mon.check("subprocess.passthrough_logging", warn == steps and info == steps,
+                  lambda: W(warning_records=warn[:8], info_records=info[:8], want=steps[:8], environment_without=case.get("env_without"),
+                            stderr=res["stderr"][-500:]))
+        mon.seen("passthrough_logging_project", "environment_without_before_all")
 
 
 def run(spec, mon):
@@ -359,8 +393,9 @@ def run(spec, mon):
             extra.append("--no-logcapture")
         if rng.random() < 0.3:
             extra.append("--logging-level=%s" % rng.choice(["DEBUG", "WARNING", "INFO"]))
-        if rng.random() < 0.15:
-            extra.append("--logging-filter=%s" % rng.choice(["bvm.c18", "-other"]))
+        if rng.random() < 0.3:
+            extra.append("--logging-filter=%s" % rng.choice(["bvm.c18", "-other", "bvm.c18,-other", "-other,bvm.c18", "-bvm.side", "bvm.side",
+                                                             "bvm.side,bvm.c18", "bvm.c18,-bvm.side", "x.y,-bvm.c18"]))
         case["args"] = case["args"] + extra
         # nested execute_steps for some passing steps
         nested = {}
@@ -406,6 +441,14 @@ def run(spec, mon):
                            p_stop=0, p_dry=0, tags=False)
         a, b, c = combos[(i + spec["shard"]) % 8]
         case["args"] = case["args"] + ([] if a else ["--no-capture"]) + ([] if b else ["--no-capture-stderr"]) + ([] if c else ["--no-logcapture"])
+        subprocess_case(mon, rng, case)
+    for i in range(1 if tier == "quick" else 30):
+        # log capture off, in projects whose environment.py defines only some hooks (step hooks but no before_all, ...)
+        case = RB.gen_case(rng, gen={"p_nonpass": 0.3, "max_features": 1, "outcomes": [o for o in OUTCOMES if o != "ki"]},
+                           p_stop=0, p_dry=0, tags=False)
+        a, b = rng.choice([(True, True), (True, False), (False, True), (False, False)])
+        case["args"] = case["args"] + ([] if a else ["--no-capture"]) + ([] if b else ["--no-capture-stderr"]) + ["--no-logcapture"]
+        case["env_without"] = rng.choice([["before_all", "after_all"], ["before_all"], ["before_all", "before_feature", "after_feature", "before_tag", "after_tag"]])
         subprocess_case(mon, rng, case)
 
 
